@@ -225,9 +225,13 @@ def crashAt (regs : List Reg) (k : Nat) (fs0 : Files) : St :=
 
 -- ---------------------------------------------------------------- start-up recovery (repair; not in the code as it is)
 
-/-- The first backup file of part `id` among slots `< n` (directory order = ULID order). -/
-def firstBackup (n : Nat) (fs : Files) (id : Nat) : Option (Nat × Bytes) :=
-  (List.range n).findSome? fun i => (fs (.backup id i)).map fun v => (i, v)
+/-- The first backup file of part `id` among slots `< n` (directory order = ULID order = slot order). -/
+def firstBackup : Nat → Files → Nat → Option (Nat × Bytes)
+  | 0, _, _ => none
+  | n + 1, fs, id =>
+    match firstBackup n fs id with
+    | some x => some x
+    | none => (fs (.backup id n)).map fun v => (n, v)
 
 /-- Start-up pass: a `.txbackup.*` file whose target is missing is renamed back. Backups whose
 target exists are left alone. `n` bounds the slots that can occur. -/
